@@ -80,7 +80,11 @@ def with_drops(sc, seed):
     nfr = max(1, sim0.nframes)
     nd = rng.choice([0, 1, 1, 2, 3])
     drops = sorted(set(rng.randrange(nfr) for _ in range(nd)))
-    return dict(sc, drop=drops)
+    # what is delivered DURING a phase with several lost frames is not judged here: no listed property promises payload
+    # integrity under more than one loss (C06: a single lost frame), and the J1939-21 receiver, which does not check
+    # sequence numbers, can indeed glue the packets of the next broadcast to an incomplete one when both a data packet
+    # and the next announcement are lost (observation O4).  The transfers of the final phase must arrive intact.
+    return dict(sc, drop=drops, expect=dict(sc["expect"], dm=len(drops) < 2))
 
 
 def nontrivial(tr):
